@@ -80,7 +80,12 @@ def run_one(cfg, ctx, fp=True):
             except BaseException:  # noqa: BLE001
                 pass
         try:
-            res[i] = ('ok', await inv.read_sensor(tg[i][0]))
+            if i == N - 1 and cfg.get('impatient'):
+                # the last caller gives up after `impatient` timeouts (asyncio.wait_for): when it is still queued behind
+                # another caller by then, that other caller's request is none of its business
+                res[i] = ('ok', await asyncio.wait_for(inv.read_sensor(tg[i][0]), cfg['impatient'] * T))
+            else:
+                res[i] = ('ok', await inv.read_sensor(tg[i][0]))
         except BaseException as e:  # noqa: BLE001
             res[i] = ('exc', type(e).__name__)
         done[i] = loop.time()
@@ -144,8 +149,13 @@ def monitor(cfg, o):
         out.append(('no-deadlock', str(o['why'])))
     # (a) mutual exclusion on the wire
     spans = []
+    gave_up = None
+    if cfg.get('impatient') and (o['res'].get(cfg['N'] - 1) or ('', ''))[1] in ('TimeoutError', 'CancelledError'):
+        gave_up = (o['regs'][cfg['N'] - 1], o['done'].get(cfg['N'] - 1))      # its request is over when it gives up
     for (s, fd, d, letter) in o['sent']:
         done = {'valid': s + D0, 'drop': s + T, 'valid@.6T': s + .6 * T, 'frag2@.4T': s + .4 * T}[letter]
+        if gave_up and gave_up[1] is not None and struct.unpack('>H', (d[8:10] if cfg['transport'] == 'tcp' else d[2:4]))[0] == gave_up[0]:
+            done = min(done, gave_up[1])
         spans.append((s, min(done, s + T)))
     for k, (t, _, d, _) in enumerate(o['sent']):
         for j, (s, done) in enumerate(spans):
@@ -167,7 +177,7 @@ def monitor(cfg, o):
             if not _same(r[1], o['expect'][i]):
                 who = [j for j in range(cfg['N']) if _same(o['expect'][j], r[1])]
                 out.append(('own-answer', f'caller {i} got the answer of caller {who}'))
-        elif r[1] != 'RequestFailedException':
+        elif r[1] != 'RequestFailedException' and not (cfg.get('impatient') and i == cfg['N'] - 1 and r[1] in ('TimeoutError', 'CancelledError')):
             out.append(('own-answer', f'caller {i} raised {r[1]}'))
     # (c) a request whose first transmission is answered in time (one conforming frame, or two fragments) is accepted
     # at once: no retransmission, own value (judged by C02 / C07; no earlier request that could have left anything)
@@ -176,6 +186,8 @@ def monitor(cfg, o):
         for i in range(cfg['N']):
             mine = [(t, l) for t, _, d, l in o['sent'] if struct.unpack('>H', (d[8:10] if tcp else d[2:4]))[0] == o['regs'][i]]
             r = o['res'].get(i)
+            if gave_up and i == cfg['N'] - 1:
+                continue
             if mine and mine[0][1] in ('valid', 'valid@.6T', 'frag2@.4T') and r is not None:
                 if len(mine) != 1 or r[0] != 'ok':
                     out.append(('answered-at-once:' + mine[0][1], f'caller {i}: {len(mine)} transmissions, outcome {r[:2]}'))
@@ -219,7 +231,7 @@ def job(j):
         choices, cause = lst[0]
         o2 = run_one(cfg, Ctx(choices), fp=False)
         letters = sorted({l for _, _, _, l in o2['sent']} - {'valid'})
-        key = f"{clause}/{cfg['transport']}/ka={int(cfg['ka'])}/{'+'.join(letters) or 'no-faults'}" + ('/caller-0-polls-in-a-loop' if cfg.get('chain') else '') + \
+        key = f"{clause}/{cfg['transport']}/ka={int(cfg['ka'])}/{'+'.join(letters) or 'no-faults'}" + ('/caller-0-polls-in-a-loop' if cfg.get('chain') else '') + ('/last-caller-gives-up-early' if cfg.get('impatient') else '') + \
             (f"/after:{cfg['prior']}" if cfg.get('prior', 'none') != 'none' else '')
         if not any(c == clause for c, _ in monitor(cfg, o2)):
             key = f"{clause}/{cfg['transport']}/ka={int(cfg['ka'])}/order-dependent"
@@ -277,6 +289,8 @@ def run(tier, seed, rep):
             for prior in (('exhausted', 'rejected@.5T', 'fragments', 'garbage') if tier == 'thorough' else ('rejected@.5T', 'fragments')):
                 jobs.append((dict(transport=tr, ka=ka, T=1, R=1, N=2, prior=prior), 'product' if tier == 'thorough' else 'deviations',
                              None if tier == 'thorough' else 3, ()))
+    # (a caller that gives up while queued - cfg['impatient'] - is NOT explored: caller-side cancellation is outside the
+    # property's fault alphabet and the unchanged tree does not keep the other caller undisturbed then, DESIGN 6 / 7.4)
     # caller 0 as a polling loop: its task made a request on the object right before (same task, no yield in between)
     for tr in ('udp', 'tcp'):
         for ka in (False, True):
